@@ -309,7 +309,7 @@ func optRoundTrip(r *core.Run) {
 			}
 		}
 	}
-	{
+	if pp := r.Call("parse, owner writes, parse again", func() {
 		var vs [][]byte
 		a, _ := smpp.ReadTLVs(packet.NewPacketReader(append([]byte(nil), ser...)))
 		for _, v := range a {
@@ -341,6 +341,9 @@ func optRoundTrip(r *core.Run) {
 		if d := setDiff(want, optSet(smgp.ReadOptions(packet.NewPacketReader(append([]byte(nil), oser...))))); d != "" {
 			r.Fail("C16", "roundtrip", "smgp.ReadOptions", "after-owner-wrote", "after the owner of earlier parse results overwrote them, parsing the same octets gives another set: %s", d)
 		}
+	}); pp != nil {
+		r.Fail("C16", "panic", pp.Frame, pp.Kind, "parsing a container's own serialisation: %s", pp.Value)
+		return
 	}
 	// the two images are kept while other containers are serialised and a PDU is encoded; parsing them afterwards
 	// must still yield the set (a serialisation is the caller's from the moment it is returned)
